@@ -104,7 +104,7 @@ def make_valid_items(ctx, rng, n, variants=2, threads=False, sizes=None):
         s = S.gen_valid(rng, n_actions=(rng.choice(sizes) if sizes else None), threads=threads)
         g = scen_hash(s)
         for v in range(variants):
-            r = {"spelling": ["mixed", "id", "alias", "mixed"][v % 4], "shuffle": v % 2 == 1, "descriptive": v % 3 == 2,
+            r = {"spelling": ["mixed", "id", "alias", "mixed"][v % 4], "shuffle": v % 2 == 1, "descriptive": (k + v) % 3 == 2,
                  "seed": rng.randrange(1 << 30), "numeric_names": True if (k + v) % 4 == 0 else ("odd" if (k + v) % 4 == 2 else False)}
             doc = S.render(s, random.Random(r["seed"]), r["spelling"], r["shuffle"], r["descriptive"], r["numeric_names"])
             items.append(Item(s, doc, "valid", render=r, group=g))
@@ -116,7 +116,7 @@ def make_mutant_items(ctx, rng, n, owners, threads=False):
     items = []
     for k in range(n):
         s, name, owner, desc = M.mutate(rng, only=owners, threads=threads)
-        r = {"spelling": "id" if name in M.FORCE_ID_SPELLING else "mixed", "shuffle": k % 2 == 1, "descriptive": False,
+        r = {"spelling": "id" if name in M.FORCE_ID_SPELLING else "mixed", "shuffle": k % 2 == 1, "descriptive": k % 4 == 3,
              "seed": rng.randrange(1 << 30), "numeric_names": (k % 5 == 0 and name not in ("duplicate_id", "duplicate_name")) or ("odd" if k % 5 == 2 else False)}
         doc = S.render(s, random.Random(r["seed"]), r["spelling"], r["shuffle"], r["descriptive"], r["numeric_names"])
         items.append(Item(s, doc, "mutant", mutator=name, owner=owner, desc=desc, render=r, group=scen_hash(s)))
